@@ -38,6 +38,8 @@ SK == ( <<"c">>            :> "cont"
      @@ <<"ol">>           :> "olist"
      @@ <<"ol","k">>       :> "leaf"
      @@ <<"ol","v">>       :> "leaf"
+     @@ <<"ol","sub">>     :> "cont"
+     @@ <<"ol","sub","w">> :> "leaf"
      @@ <<"m">>            :> "list"
      @@ <<"m","k1">>       :> "leaf"
      @@ <<"m","k2">>       :> "leaf"
